@@ -7020,12 +7020,12 @@ class FrameGO(Frame):
     _columns: IndexGO
 
 
-    def __setitem__(self,
+    def _setitem_block(self,
             key: tp.Hashable,
             value: tp.Any,
             fill_value: tp.Any = np.nan
-            ) -> None:
-        '''For adding a single column, one column at a time.
+            ) -> np.ndarray:
+        '''Check the key and return the 1D array for the value of a new column, without changing this FrameGO.
         '''
         if key in self._columns:
             raise RuntimeError(f'The provided key ({key}) is already defined in columns; if you want to change or replace this column, use .assign to get new Frame')
@@ -7058,7 +7058,17 @@ class FrameGO(Frame):
             if block.ndim != 1 or len(block) != row_count:
                 raise RuntimeError('incorrectly sized, unindexed value')
 
+        return block
+
+    def __setitem__(self,
+            key: tp.Hashable,
+            value: tp.Any,
+            fill_value: tp.Any = np.nan
+            ) -> None:
+        '''For adding a single column, one column at a time.
+        '''
         # Wait until after extracting block from value before updating _columns, as value evaluation might fail.
+        block = self._setitem_block(key, value, fill_value)
         self._columns.append(key)
         self._blocks.append(block)
 
@@ -7070,8 +7080,14 @@ class FrameGO(Frame):
         '''
         Given an iterable of pairs of column name, column value, extend this FrameGO. Columns values can be any iterable suitable for usage in __setitem__.
         '''
+        # evaluate all pairs before extending, so that a failing pair leaves this FrameGO unchanged
+        keys = []
+        blocks = []
         for k, v in pairs:
-            self.__setitem__(k, v, fill_value)
+            blocks.append(self._setitem_block(k, v, fill_value))
+            keys.append(k)
+        self._columns.extend(keys) # raises on duplicates before appending any
+        self._blocks.extend(blocks)
 
 
     def extend(self,
